@@ -844,7 +844,7 @@ func genEnc(t *rapid.T, names []string) string {
 }
 
 func genLoad(t *rapid.T) string {
-	return []string{"", "", "reload", "proto"}[pickU(t, "load", 4)]
+	return []string{"", "", "reload", "proto", "over"}[pickU(t, "load", 5)]
 }
 
 // genTrieCase draws the common part of a trie case.
